@@ -60,14 +60,15 @@ rng = np.random.RandomState(seed + 13)
 shape = (4, 3)
 for sharded in (False, True):
   for thr in (0.1, 0.0, 1e30):
-    for eigh in (False, True):
+    for eigh, pcs in ((False, 1), (True, 1), (False, 2)):
       cases += 1
       kw = dict(shard_optimizer_states=True, num_devices_for_pjit=1, statistics_partition_spec=P("x", None, None),
                 preconditioner_partition_spec=P("x", None, None)) if sharded else {}
-      name = f"{'sharded' if sharded else 'replicated'} thr={thr} eigh={eigh}"
+      name = f"{'sharded' if sharded else 'replicated'} thr={thr} eigh={eigh} preconditioning_compute_steps={pcs}"
       try:
         opt = ds.distributed_shampoo(0.1, block_size=4, inverse_failure_threshold=thr, eigh=eigh,
-                                     start_preconditioning_step=1, matrix_epsilon=1e-6, **kw)
+                                     start_preconditioning_step=1, matrix_epsilon=1e-6,
+                                     preconditioning_compute_steps=pcs, **kw)
         params = {"w": jnp.zeros(shape, jnp.float32)}
         st = opt.init(params)
         upd = opt.update
@@ -76,10 +77,12 @@ for sharded in (False, True):
             st = st.init_fn(params)
           upd = jax.jit(opt.update)
         prev = precs(st, sharded)
-        for label, g in faults(shape, rng):
+        for t_, (label, g) in enumerate(faults(shape, rng)):
           with mesh:
             u, st = upd({"w": jnp.asarray(g)}, st, params)
           cur = precs(st, sharded)
+          if not sharded and t_ % pcs != 0 and any(a.tobytes() != b.tobytes() for a, b in zip(prev, cur)):
+            add("distributed_shampoo.update", [name, label, f"step {t_}"], "preconditioner replaced on a step that does not compute roots (not a verified root)")
           e = errs(st, sharded)
           for k, (a, b) in enumerate(zip(prev, cur)):
             if not np.all(np.isfinite(b)):
